@@ -8,9 +8,9 @@ use std::io::{BufRead, BufReader, Write};
 use std::path::PathBuf;
 use std::str::FromStr;
 
-const SYMS: [(&str, char); 15] = [
+const SYMS: [(&str, char); 16] = [
     ("alpha", 'α'), ("d0", '0'), ("d1", '1'), ("d5", '5'), ("plus", '+'), ("a", 'a'), ("Z", 'Z'),
-    ("rho", 'ρ'), ("euro", '€'), ("phi", '𝜑'), ("sp", ' '), ("bsl", '\\'), ("quo", '"'), ("apo", '\''), ("adig", '٣'),
+    ("rho", 'ρ'), ("euro", '€'), ("phi", '𝜑'), ("sp", ' '), ("bsl", '\\'), ("quo", '"'), ("apo", '\''), ("adig", '٣'), ("ctl", '\u{1}'),
 ];
 
 fn ch(sym: &str) -> char {
